@@ -133,6 +133,21 @@ def evaluate(p):
     req = p["nx"]
     fried = p["variant"] == "fried"
     gen0 = SeqGenerator(())
+    # History prefix: screens that differ from the one under test in exactly ONE parameter are constructed first
+    # (and discarded).  The matrices of a screen must depend on ITS parameters only; anything remembered from an
+    # earlier screen under a key that forgets a parameter (added after a seeded A/B-matrix cache without r0 was
+    # missed) now shows up in the identities below, deterministically, in every case.
+    for sib in ((ps, r0 * 2.0, L0), (ps, r0, L0 * 2.0), (ps * 2.0, r0, L0)):
+        try:
+            if fried:
+                ips.PhaseScreenKolmogorov(req, sib[0], sib[1], sib[2], random_seed=SeqGenerator(()),
+                                          stencil_length_factor=p["depth"])
+            else:
+                ips.PhaseScreenVonKarman(req, sib[0], sib[1], sib[2], random_seed=SeqGenerator(()),
+                                         n_columns=p["depth"])
+            o.stat("lib_calls", 1)
+        except (linalg.LinAlgError, numpy.linalg.LinAlgError):
+            pass
     try:
         if fried:
             obj = ips.PhaseScreenKolmogorov(req, ps, r0, L0, random_seed=gen0,
